@@ -26,15 +26,18 @@ MEM_LIMIT = int(os.environ.get("VERIF_MEM_GB", "10")) * (1 << 30)
 NPROC = int(os.environ.get("VERIF_JOBS", str(os.cpu_count() or 8)))
 
 
-def _limits():
-    resource.setrlimit(resource.RLIMIT_AS, (MEM_LIMIT, MEM_LIMIT))
-    os.setsid()
+def _limits(mem=None):
+    def f():
+        lim = mem or MEM_LIMIT
+        resource.setrlimit(resource.RLIMIT_AS, (lim, lim))
+        os.setsid()
+    return f
 
 
-def sh(cmd, timeout, cwd=None):
+def sh(cmd, timeout, cwd=None, mem_gb=None):
     t0 = time.time()
     try:
-        p = subprocess.Popen(cmd, stdout=subprocess.PIPE, stderr=subprocess.PIPE, cwd=cwd, preexec_fn=_limits)
+        p = subprocess.Popen(cmd, stdout=subprocess.PIPE, stderr=subprocess.PIPE, cwd=cwd, preexec_fn=_limits(mem_gb * (1 << 30) if mem_gb else None))
         try:
             out, err = p.communicate(timeout=timeout)
         except subprocess.TimeoutExpired:
@@ -192,7 +195,7 @@ def run_job(unit, job, cfile, scratch, canary=False, loops_vanished=False):
     elif solver == "z3":
         cmd += ["--z3"]
     cmd += job.get("cbmc_args", [])
-    rc, out, err, _ = sh(cmd, timeout)
+    rc, out, err, _ = sh(cmd, timeout, mem_gb=job.get("mem_gb"))
     cmds.append(" ".join(cmd))
     res["cmds"] = cmds
     res["secs"] = time.time() - t0
